@@ -27,3 +27,17 @@ func (s *Server) VerifC20ReloadCluster() error {
 
 // VerifC20StopCluster is stopRaftCluster (used to reset between cases).
 func (s *Server) VerifC20StopCluster() { s.stopRaftCluster() }
+
+// VerifC20RunWithPause is Run() with a callback between its two halves: startEtcd has returned (the gRPC and HTTP services of the
+// member are reachable, its etcd client exists) and startServer - which reads or initialises the cluster id - has not run yet.
+func (s *Server) VerifC20RunWithPause(between func()) error {
+	if err := s.startEtcd(s.ctx); err != nil {
+		return err
+	}
+	between()
+	if err := s.startServer(s.ctx); err != nil {
+		return err
+	}
+	s.startServerLoop(s.ctx)
+	return nil
+}
